@@ -523,7 +523,7 @@ func TestC10Boundary(t *testing.T) {
 	col := stats.New("C10")
 	col.Sub = "boundary"
 	defer finish(t, col)
-	col.Rule = "boundary: every implemented encoding (930, enumerated) x rapid-drawn state: one Step, then {no request, NMI, maskable request valid for the mode with IFF1 forced on or left alone} is raised, " +
+	col.Rule = "boundary: every encoding of the model (936 = the 930 the pinned tree supports + 6 undocumented RETN mirrors, which are skipped where a tree does not support them; enumerated) x rapid-drawn state: one Step, then {no request, NMI, maskable request valid for the mode with IFF1 forced on or left alone} is raised, " +
 		"a new CPU is built from States + request + memory (with and without the HALT indication) and both run 3 more Steps; non-trivial = request accepted right after the instruction"
 	a, b := &soupRunner{b: bus.New()}, &soupRunner{b: bus.New()}
 	focus := -1
